@@ -31,6 +31,9 @@ import lena.structures.elements as struct_elements_mod
 import lena.structures.split_into_bins as sib_mod
 import lena.variables
 import collections
+import warnings
+
+warnings.filterwarnings("ignore", message=".*hist_to_csv not implemented.*")
 
 from ..kernel import RunResult, summarize, exception_origin, exception_site
 from ..seams.fs import SimFS, SimOS, Clock
@@ -200,7 +203,7 @@ def a_graph(k=0):
 
 COMMON_B = ["int", "float", "tuple", "foreign", "none", "pair-unrelated", "list", "pair-foreign",
             "iterator", "pair-iterator", "unprintable", "pair-unprintable", "bytes",
-            "pair-defaultdict-ctx", "pair-defaultdict-output", "pair-noeq-filepath"]
+            "pair-defaultdict-ctx", "pair-defaultdict-output", "pair-noeq-filepath", "pair-empty-ctx"]
 
 
 
@@ -252,6 +255,9 @@ def common_b(kind, j, fs):
         return (j, collections.defaultdict(dict, {"info": {"j": j}}))
     if kind == "pair-defaultdict-output":
         return (j, {"info": {"j": j}, "output": collections.defaultdict(dict)})
+    if kind == "pair-empty-ctx":
+        # a pair with an empty context is a pair, not the bare data
+        return (j, {})
     if kind == "pair-noeq-filepath":
         # data that cannot be compared (an array compares element-wise; here == raises), with the
         # path of a file written elsewhere in its context
@@ -291,7 +297,7 @@ class EToCSV(El):
     a_kinds = ["hist1-ctx", "hist1-bare", "hist2-ctx", "graph-ctx", "hist1-tocsv-true"]
     b_kinds = COMMON_B + ["str", "str-ctx", "hist-tocsv-false", "graph-tocsv-false", "nondict-output",
                           "hist-tocsv-false-dup-true", "hist-tocsv-false-dup-false", "int-dup-true",
-                          "int-dup-false"]
+                          "int-dup-false", "hist3-ctx", "hist3-bare"]
 
     def options(self, tape):
         return {"separator": tape.choice([",", ";"], "separator"),
@@ -328,6 +334,12 @@ class EToCSV(El):
             return (hist1(j), {"output": {"to_csv": False, "duplicate_last_bin": kind.endswith("true")}})
         if kind.startswith("int-dup"):
             return (j, {"output": {"duplicate_last_bin": kind.endswith("true")}})
+        if kind == "hist3-ctx":
+            # documented: histograms of three and more dimensions are not converted
+            return (lena.structures.histogram([[0, 1, 2], [0, 2], [0, 1]], [[[1 + j]], [[2]]]),
+                    {"plot": {"name": "b%d" % j}})
+        if kind == "hist3-bare":
+            return lena.structures.histogram([[0, 1, 2], [0, 2], [0, 1]], [[[1 + j]], [[2]]])
         return common_b(kind, j, w.fs)
 
 
